@@ -14,6 +14,37 @@ let xerr_s = function
 
 let rec take n l = if n <= 0 then [] else match l with [] -> [] | x :: t -> x :: take (n - 1) t
 
+let z_of_int (i : int) : z =
+  if i = 0 then Z0 else if i > 0 then Zpos (pos_of_int i) else Zneg (pos_of_int (-i))
+
+(* kind "fseqm" (family c12): a whole sequence of File method calls on the model of Xfer/FileOps.v *)
+let install_fileseq register get geti getb =
+  register "fseqm" (fun kv ->
+    let p = geti kv "p" and conc = geti kv "conc" in
+    let o = { maxPacket = nat_of_int p; maxConc = nat_of_int conc; concReads = getb kv "cr"; concWrites = getb kv "cw"; useFstat = getb kv "fstat" } in
+    let s = { file = bytes_of_hex (get kv "init"); maxTx = nat_of_int (geti kv "maxtx"); rfail = (fun _ -> None); wfail = (fun _ -> None) } in
+    let ops = List.map (fun t -> match split ':' t with
+      | ["r"; n] -> FRead (nat_of_int (int_of_string n))
+      | ["w"; h] -> FWrite (bytes_of_hex h)
+      | ["ra"; a; n] -> FReadAt (nat_of_int (int_of_string a), nat_of_int (int_of_string n))
+      | ["wa"; a; h] -> FWriteAt (nat_of_int (int_of_string a), bytes_of_hex h)
+      | ["sk"; w; d] -> FSeek ((match w with "0" -> SeekStart | "1" -> SeekCurrent | "2" -> SeekEnd | _ -> SeekBad), z_of_int (int_of_string d))
+      | ["wt"] -> FWriteTo
+      | ["rf"; h] -> FReadFrom (bytes_of_hex h, true)
+      | ["tr"; n] -> FTruncate (nat_of_int (int_of_string n))
+      | ["st"] -> FStat
+      | _ -> failwith ("bad op " ^ t)) (if get kv "ops" = "-" then [] else split ',' (get kv "ops")) in
+    (* offsets after every step: replay prefix by prefix is quadratic; run step by step instead *)
+    let rec go st ops acc = match ops with
+      | [] -> (st, List.rev acc)
+      | op :: rest ->
+        let ((st', rs)) = frun o st [op] in
+        let r = List.hd rs in
+        let (_, off') = st' in
+        go st' rest (Printf.sprintf "%d:%d:%d:%s" (int_of_nat r.r_n) (if r.r_err then 1 else 0) (int_of_nat off') (hex_of_bytes r.r_data) :: acc) in
+    let ((s', _), outs) = go (s, O) ops [] in
+    Printf.sprintf "res=%s final=%s" (if outs = [] then "-" else String.concat "," outs) (hex_of_bytes s'.file))
+
 let install register get getn geti getb =
   ignore getn;
   register "xfer" (fun kv ->
